@@ -259,7 +259,8 @@ func RunC16(r *core.Run) {
 	st.Space = "every table name / method followed or preceded by 1..12 copies of every byte value 0..255"
 	// C3: long same-byte / random suffixes of "round" lengths (a lookup that drops the length check
 	// or hashes len modulo a power of two only shows for suffixes of 16, 32, 64 ... bytes)
-	longLens := []int{13, 15, 16, 17, 28, 31, 32, 33, 36, 60, 63, 64, 65, 96, 128, 252, 255, 256, 257}
+	longLens := []int{13, 15, 16, 17, 28, 31, 32, 33, 36, 60, 63, 64, 65, 96, 128, 252, 255, 256, 257,
+		508, 511, 512, 513, 768, 1024, 4096, 32768, 65520, 65536, 65537, 131072, 196608}
 	st = r.Stage("long-suffixes", int64(len(names)*len(longLens)*8), func(w *core.Worker, idx int64) {
 		rr := core.NewRand(r.Seed, 0xC16, 7, uint64(idx))
 		variant := int(idx % 8)
@@ -280,10 +281,16 @@ func RunC16(r *core.Run) {
 		default:
 			suf = rr.RawBytes(k)
 		}
-		classify(w, append(base, suf...), variant != 6)
+		if k >= 65536 && variant/2 != 1 {
+			// exact multiples of 2^16 longer than a table name, made of name characters
+			suf = rr.Bytes(k, []byte("abcdefghijklmnopqrstuvwxyz-"))
+		}
+		nm := append(base, suf...)
+		// (the parser path only for lines inside the 65,535-byte addressing limit)
+		classify(w, nm, variant != 6 && len(nm) < 65000)
 		w.NontrivialEnum()
 	})
-	st.Space = "every table name / method (lower and upper case) + a suffix of 13..257 bytes (same byte, random letters, random bytes)"
+	st.Space = "every table name / method (lower and upper case) + a suffix of 13..257, 508..513, 768, 1024, 4096, 32768, 65520 bytes and of exactly 1, 2, 3 x 65536 (+1) bytes (same byte, random letters, random bytes)"
 	// C4: Unicode case-fold lookalikes: 's' -> U+017F, 'k' -> U+212A in every subset of positions
 	type look struct{ name []byte }
 	var looks []look
